@@ -20,10 +20,11 @@ theorem assignRhs_Er {cx : Cx} {lo hi : Nat} {x' x : Node} (h : Er cx lo hi x' x
   unfold assignRhs
   split
   · rename_i a b sp
-    intro σ hσ
-    obtain ⟨X, Δ, eX, sX, wX⟩ := h σ hσ
+    intro e'' hb σ hσ
+    obtain ⟨i'', rfl, hi⟩ := hb.paren_inv
+    obtain ⟨X, Δ, eX, sX, wX⟩ := h i'' hi σ hσ
     refine ⟨X, Δ, ?_, sX, wX⟩
-    rw [erase_paren_tight _ _ _ (by simp [Node.span, span_beq_refl'])]
+    rw [erase_paren_tight _ _ _ (by rw [BRg.span _ _ hi]; exact span_beq_refl' _)]
     exact eX
   · exact h
 
@@ -52,11 +53,12 @@ theorem toDdAssign_Er (cfg : Config) (cx : Cx) (lo hi : Nat) (op : String) (left
     obtain ⟨c1, P⟩ := hP
     dsimp only at c1 P hnt2 ⊢
     -- for every environment: the context in which the sum is rewritten
-    have key : ∀ σ, cx.ext σ → ∃ T Δt, erase σ target = (T, Δt ++ σ) ∧ Sim T left ∧ WinU lo hi s.counter s1.counter Δt ∧
+    have key : ∀ target'', BRg target target'' → ∀ σ, cx.ext σ → ∃ T Δt, erase σ target'' = (T, Δt ++ σ) ∧ Sim T left ∧
+        WinU lo hi s.counter s1.counter Δt ∧
         let cx' : Cx := ⟨fun k => cx.bad k ∨ (s.counter ≤ k ∧ k < s1.counter), Δt ++ σ⟩
         HypW cx' hi s1 ∧ Er cx' lo hi operand eo ∧ Er cx' lo hi (assignRhs r') r := by
-      intro σ hσ
-      obtain ⟨T, Δt, eT, sT, wT, RB⟩ := P σ hσ
+      intro target'' htg σ hσ
+      obtain ⟨T, Δt, eT, sT, wT, RB⟩ := P target'' htg σ hσ
       refine ⟨T, Δt, eT, sT, wT, ?_, ?_, ?_⟩
       · refine ⟨?_, ?_, by have := hw.h3; omega⟩
         · intro k hk
@@ -67,24 +69,25 @@ theorem toDdAssign_Er (cfg : Config) (cx : Cx) (lo hi : Nat) (op : String) (left
           rcases hk with hk | hk
           · have := hw.h2 k hk; omega
           · omega
-      · intro σ' hσ'
+      · intro operand'' hop σ' hσ'
         obtain ⟨Δ, rfl, hΔ⟩ := hσ'
-        exact RB Δ (by intro p hp; have := hΔ p hp; simp only [not_or, not_and, Nat.not_lt] at this; omega)
+        exact RB operand'' hop Δ (by intro p hp; have := hΔ p hp; simp only [not_or, not_and, Nat.not_lt] at this; omega)
           (by intro p hp hb; exact hΔ p hp (Or.inl hb))
-      · intro σ' hσ'
+      · intro r'' hr'' σ' hσ'
         obtain ⟨Δ, rfl, hΔ⟩ := hσ'
-        refine assignRhs_Er hr _ ?_
+        refine assignRhs_Er hr r'' hr'' _ ?_
         exact Cx.ext_append (Cx.ext_append hσ (wT.avoidCx hw)) (by intro p hp hb; exact hΔ p hp (Or.inl hb))
     have hcnt : s1.counter ≤ (toDdBinary cfg (.bin "+" operand (assignRhs r') sp) s1).2.counter := by
-      obtain ⟨T, Δt, _, _, _, hw', hEo, hEr⟩ := key cx.base cx.ext_base
+      obtain ⟨T, Δt, _, _, _, hw', hEo, hEr⟩ := key target (BRg.refl _) cx.base cx.ext_base
       exact (toDdBinary_Er cfg _ lo hi "+" operand (assignRhs r') eo r sp s1 hw' (by omega) hEo hEr).1
     have hmain : ∀ e1, (toDdBinary cfg (.bin "+" operand (assignRhs r') sp) s1).1 = some e1 →
         Er cx lo (toDdBinary cfg (.bin "+" operand (assignRhs r') sp) s1).2.counter (.assign "=" target e1 sp)
           (.assign "+=" left r sp) := by
-      intro e1 he σ hσ
-      obtain ⟨T, Δt, eT, sT, wT, hw', hEo, hEr⟩ := key σ hσ
+      intro e1 he m hbr σ hσ
+      obtain ⟨target'', e1'', rfl, htg, he1⟩ := hbr.assign_inv
+      obtain ⟨T, Δt, eT, sT, wT, hw', hEo, hEr⟩ := key target'' htg σ hσ
       have hB := (toDdBinary_Er cfg _ lo hi "+" operand (assignRhs r') eo r sp s1 hw' (by omega) hEo hEr).2 e1 he
-      obtain ⟨Xb, Δb, eXb, sXb, wXb⟩ := hB (Δt ++ σ) (Cx.ext_base _)
+      obtain ⟨Xb, Δb, eXb, sXb, wXb⟩ := hB e1'' he1 (Δt ++ σ) (Cx.ext_base _)
       -- the erased sum is a sum carrying the assignment's position
       have hshape : ∃ A B, Xb = .bin "+" A B sp ∧ strip B = strip r := by
         have h1 := sXb.1
@@ -99,8 +102,9 @@ theorem toDdAssign_Er (cfg : Config) (cx : Cx) (lo hi : Nat) (op : String) (left
           · exact absurd h2.1 (by simp)
         | _ => simp [strip] at h1
       obtain ⟨A, B, rfl, hBr⟩ := hshape
+      have hnt3 : tempTarget? target'' = none := by rw [htg.tempTarget]; exact hnt2
       refine ⟨.assign "+=" T B sp, Δb ++ Δt, ?_, ?_, ?_⟩
-      · rw [erase_assign_nt _ _ _ _ _ hnt2, eT]
+      · rw [erase_assign_nt _ _ _ _ _ hnt3, eT]
         simp only
         rw [eXb]
         simp [resugarAssign, span_beq_refl', List.append_assoc]
